@@ -531,7 +531,12 @@ def rule_c(ctx: Context, R: Reporter, pred: FuncInfo):
         if rn.kind != "stmt" or not isinstance(rn.stmt, ast.Return) or rn.stmt.value is None:
             continue
         v = rs.resolve(rn.stmt.value, rn)
-        facts = [(norm_text(a), p) for (t, pol) in _cha2(cfg, rn) for (a, p) in split_cond(t, pol)]
+        facts = []
+        for (t, pol) in _cha2(cfg, rn):
+            tn = flow.node_containing(t) if hasattr(flow, "node_containing") else None
+            rt = rs.resolve(t, tn if tn is not None else rn)  # local boolean names (`single_point = u.ndim == 1`) are inlined
+            for (a, p) in split_cond(rt, pol):
+                facts.append((norm_text(a), p))
         one_d = any((txt.endswith(".ndim==1") and p) or (txt.endswith(".ndim!=1") and not p) or (txt.endswith(".ndim>1") and not p) or (txt.endswith(".ndim>=2") and not p) for (txt, p) in facts)
         reds = [c for c in ast.walk(v) if isinstance(c, ast.Call) and (ctx.res.external_name(pred, c) or "") in ("numpy.all", "numpy.any", "numpy.logical_and.reduce")]
         for c in reds:
